@@ -2653,6 +2653,7 @@ var verifDetPrograms = []struct{ name, text string }{
 	{"same-class-name-in-two-modules", "module Ma\nclass Cc\ndef g\n1\nend\nend\nend\nmodule Mb\nclass Cc < String\ndef g\n2\nend\nend\nend\nx = Ma::Cc.new\nx.g\n"},
 	{"overloaded-builtin-use", "a = [1, 2]\nb = a.first\nc = a.first(1)\nd = 1 + 2\ndef hh(v)\nv\nend\nhh(1)\nhh(\"s\")\n"},
 	{"same-class-name-in-doubly-nested-modules", "module Ap\nmodule Va\nclass It\ndef g\n1\nend\nend\nend\nmodule Vb\nclass It < String\ndef g\n2\nend\nend\nend\nend\nmodule Wb\nmodule Va\nclass It\ndef g\n3\nend\nend\nend\nend\nx = Ap::Va::It.new\nx.g\n"},
+	{"bare-class-name-prefix-on-the-last-row", "module Ma\nclass Wd\ndef g\n1\nend\nend\nend\nmodule Mb\nclass Wd\ndef g\n2\nend\nend\nend\nclass Wx\nend\nW\n"},
 	{"inheritance-and-mixins", "module Mx\ndef mm\n1\nend\nend\nmodule My\ndef mm\n2\nend\nend\nclass Pa\ninclude Mx\nend\nclass Ka < Pa\ninclude My\nextend Mx\nend\nclass Kb < Pa\nend\nKa.new.mm\nKb.new.mm\nKa.mm\n"},
 }
 
@@ -2734,14 +2735,17 @@ func verifDetRun(src, progName, mode string) {
 	os.Args = args
 	verifapi.Witness("src", src)
 	verifapi.Witness("flags", strings.Join(args[2:], " "))
+	// run A iterates every map in the canonical (insertion) order; run B is free: if any two
+	// orders give different outputs, one of them differs from the canonical one
+	mark := verifapi.Snapshot()
+	outA := verifRunFlags(src, flags, target)
+	verifapi.Restore(mark)
 	verifapi.FlipOrder(base.TSignatures)
 	verifapi.FlipOrder(base.ClassInheritanceMap)
 	verifapi.FlipOrder(base.MethodCallPoint)
 	verifapi.FlipOrder(base.MethodCalleePoint)
 	verifapi.FlipOrder(base.TSignatureDocument)
-	mark := verifapi.Snapshot()
-	outA := verifRunFlags(src, flags, target)
-	verifapi.Restore(mark)
+	verifapi.FlipAllMaps() // local maps of the printers (sets built from the global tables) too
 	outB := verifRunFlags(src, flags, target)
 	verifapi.Reach("ran")
 	modeName := mode
